@@ -28,7 +28,9 @@ EXPLANATION = (
     "same-NAT test of a response reads the own-WAN estimate as updated by that response, and the wrapper of the signed "
     "introduction handlers records the packet's source address with a known peer on every packet (the address that is "
     "handed out and punctured towards). The contact attempt itself: for a service, Network.get_walkable_addresses holds back only the "
-    "addresses of the peers verified for that service (the Network is shared by all overlays of a node). Reachability for the 4x4 NAT "
+    "addresses of the peers verified for that service (the Network is shared by all overlays of a node). The exclusion of the requester "
+    "from the introduction choice names the peer Network.get_verified_by_address finds for the requester's address: every path of that "
+    "lookup that answers with a peer has established that the peer uses the address (cached entries included). Reachability for the 4x4 NAT "
     "matrix needs a filtering/translating network model and is not decided."
 )
 
@@ -2093,13 +2095,18 @@ class _Run:
                     self.block(s.orelse)
             else:
                 # unknown iterable: one representative element; lists appended to in the body hold that element
-                if s.orelse:
-                    raise self.undecided("for/else over an unknown iterable")
+                # (for/else: the else block runs exactly when no element left the loop with `break` - under the one-representative
+                # abstraction, when the representative element did not)
                 self.bind(s.target, _each(it), s)
+                broke = False
                 try:
                     self.block(s.body)
-                except (_Cnt, _Brk):
+                except _Cnt:
                     pass
+                except _Brk:
+                    broke = True
+                if not broke:
+                    self.block(s.orelse)
         elif isinstance(s, ast.Match):
             subj = self.ev(s.subject)
             for case in s.cases:
@@ -2729,6 +2736,75 @@ def rule_walkable_offered(ctx: Ctx) -> None:
               "never become verified peers of each other in this overlay")
 
 
+_VERSIONED = re.compile(r"^(.*)@(\d+)$")
+
+
+def _stored_value(path: _Path, v: ast.expr | None, depth: int = 0):
+    """a read `T@k` of an attribute / slot this path stored to itself denotes the value of that store"""
+    while v is not None and depth < 6:
+        m = _VERSIONED.match(_t(v)) if isinstance(v, ast.Name) else None
+        if m is None:
+            break
+        st = [s for s in path.stores if s.target == m.group(1) and s.ver.get(s.target, 0) + 1 == int(m.group(2))]
+        if len(st) != 1 or st[0].value is None:
+            break
+        v, depth = st[0].value, depth + 1
+    return v
+
+
+_COPIES = re.compile(r"^(?:set|list|tuple|frozenset|sorted)\((.*)\)$")
+
+
+def _uses_key(key: str, addr: str, who: str) -> bool:
+    """the fact `key`, when true, says that `addr` is one of the addresses of `who`: `addr in who.addresses.values()` (also through a
+    set / list / tuple copy of the values) or `<some element of who.addresses.values()> == addr` (any(...) over the values)"""
+    vals = f"{who}.addresses.values()"
+    if key in (f"eq:{addr}:each({vals})", f"eq:each({vals}):{addr}"):
+        return True
+    if not key.startswith(f"in:{addr}:"):
+        return False
+    c = key[len(f"in:{addr}:"):]
+    for _ in range(3):
+        m = _COPIES.match(c)
+        if m is None:
+            break
+        c = m.group(1)
+    return c == vals
+
+
+def rule_requester_lookup(ctx: Ctx) -> None:
+    """create_introduction_response finds the requester with Network.get_verified_by_address(<requester's address>) and excludes THAT
+    peer from the introduction choice (puncture-accompanies checks the call).  The exclusion removes the requester only if the lookup
+    answers with a peer that uses the address: post-condition of every path, whatever caches the lookup consults."""
+    gv = _bind(ctx).method("Network", "get_verified_by_address", "ipv8/peerdiscovery/network.py")
+    addr = gv.params()[1]
+    n_peer, bad = 0, None
+    for path in _paths(gv):
+        if path.end != "return":
+            continue
+        r = _stored_value(path, path.ret)
+        if r is None or (isinstance(r, ast.Constant) and r.value is None):
+            continue
+        who = _t(r)
+        if any(_unver(k) == f"is:{who}:None" and v for k, v in path.facts.items()):
+            continue                                     # the answer is known to be None on this path
+        if isinstance(r, (ast.BoolOp, ast.IfExp, ast.Call)) and not who.startswith("self.reverse_ip_lookup."):
+            raise AnalysisError(f"undecided: the peer Network.get_verified_by_address answers with (`{who[:80]}`)")
+        n_peer += 1
+        uses = any(v and _uses_key(_unver(k), addr, who) for k, v in path.facts.items())
+        if not uses and bad is None:
+            bad = (who, path.extra())
+    ctx.floor("requester-lookup.answers", n_peer, 1)
+    ctx.check(bad is None, "requester-lookup", gv, gv.node,
+              "every peer Network.get_verified_by_address(address) answers with is known to use that address on the path that returns it",
+              f"Network.get_verified_by_address({addr}) can answer with `{bad[0][:80] if bad else ''}` without `{addr} in <that peer>.addresses.values()` holding on the "
+              "path: Community.create_introduction_response excludes the peer this lookup names for the requester's address from the introduction "
+              "choice, so after that peer moved to another address (NAT mapping changed) and another requester shows up on the old one, the wrong peer "
+              "is excluded and the requester is introduced to ITSELF - the response carries its own address, the puncture request goes to the "
+              "requester and no third peer is asked to puncture"
+              + (f" (path conditions: {bad[1]})" if bad else ""))
+
+
 def _wrapped_callee(repo, g: FuncInfo) -> str | None:
     """name under which a wrapper function calls the function it wraps: a parameter of an enclosing function that it calls"""
     from ..model import ancestors
@@ -2843,6 +2919,7 @@ def run(ctx: Ctx) -> None:
     rule_requester_selection(ctx)
     rule_puncture_target(ctx)
     rule_walkable_offered(ctx)
+    rule_requester_lookup(ctx)
     ctx.assume("reachability for each NAT type combination depends on NAT mapping/filtering behaviour that only a network model can provide: not decided")
     ctx.assume("address_in_lan_subnets / address_is_lan classify private addresses correctly (not analysed)")
 
@@ -2905,6 +2982,12 @@ WITNESSES = [
     {"name": "walkable addresses exclude every verified peer", "file": "ipv8/peerdiscovery/network.py", "rule": "walkable-offered",
      "old": "            known = self.get_peers_for_service(service_id) if service_id else self.verified_peers",
      "new": "            known = self.verified_peers"},
+    {"name": "cached address entry trusted while its peer is verified", "file": "ipv8/peerdiscovery/network.py", "rule": "requester-lookup",
+     "old": "            if peer is not None and (peer not in self.verified_peers or address not in peer.addresses.values()):",
+     "new": "            if peer is not None and peer not in self.verified_peers:"},
+    {"name": "requester looked up by IP only", "file": "ipv8/peerdiscovery/network.py", "rule": "requester-lookup",
+     "old": "                for p in self.verified_peers:\n                    if address in p.addresses.values():\n                        peer = p\n                        self.reverse_ip_lookup[address] = peer",
+     "new": "                for p in self.verified_peers:\n                    if address[0] in [a[0] for a in p.addresses.values()]:\n                        peer = p\n                        self.reverse_ip_lookup[address] = peer"},
     {"name": "puncture always to WAN", "file": CM, "rule": "puncture-target",
      "old": "        if payload.wan_walker_address[0] == self.my_estimated_wan[0]:\n            target = payload.lan_walker_address\n", "new": ""},
     {"name": "puncture loses identifier", "file": CM, "rule": "puncture-target",
